@@ -142,6 +142,12 @@ class Pair:
             if children:
                 ch = children[action[2] % len(children)]
                 sim.forced_urandom.append((action[1], bytes(ch.outbound_spi if action[3] else ch.inbound_spi)))
+        elif kind == 'force_spi_first':
+            # the next os.urandom(4) at endpoint action[1] returns the inbound SPI of the FIRST CHILD_SA it ever tracked
+            # (which may be gone by now): a peer that re-uses an SPI value
+            first = getattr(self, 'first_child', {}).get(action[1])
+            if first is not None:
+                sim.forced_urandom.append((action[1], first))
         elif kind == 'force_ike_spi':
             # the next os.urandom(8) at endpoint action[1] returns the local SPI of the first IKE_SA of endpoint action[2]
             src = self.ep(action[2])
@@ -199,6 +205,14 @@ class Pair:
         else:
             raise ValueError(action)
         self._emit(sent)
+        if not hasattr(self, 'first_child'):
+            self.first_child = {}
+        for n_ in 'AB':
+            if n_ not in self.first_child:
+                for sa_ in self.ep(n_).controller.ike_sas:
+                    if sa_.child_sas:
+                        self.first_child[n_] = bytes(sa_.child_sas[0].inbound_spi)
+                        break
         self.steps.append((action, sent))
         for h in self.hooks:
             h(self, action, sent)
@@ -255,6 +269,12 @@ def scripted(name):
         'postponed_rekey_then_child': HANDSHAKE + [['rekey_ike', 'A'], ['rekey_ike', 'B'], D, D, D, D,
                                                    ['acquire', 'A', 81], D, D, D, D, ['expire', 'B', 0, 0], D, D, D, D, D, D],
         'cookie_handshake': [['acquire', 'A', 80], ['flood', 'B', 11], D, D, D, D, D, D],
+        # both sides delete the same CHILD_SA at once; A's DELETE request is delayed in the network; meanwhile B completes
+        # its own DELETE and creates a new CHILD_SA RE-USING its old inbound SPI; only then A's request is delivered and
+        # answered: A must not touch the new CHILD_SA when it handles that late response
+        'spi_reuse_after_crossing_delete': HANDSHAKE + [['expire', 'A', 0, 1], ['expire', 'B', 0, 1], ['deliver', 1],
+                                                        ['deliver', 1], ['force_spi_first', 'B'], ['acquire', 'B', 0],
+                                                        ['deliver', 1], ['deliver', 1], D, D, D, D],
         'crossing_children': HANDSHAKE + [['acquire', 'A', 81], ['acquire', 'B', 0], D, D, D, D],
         # the successor's peer SPI equals the local SPI of the IKE_SA being replaced; a request on the successor
         # arrives while the old IKE_SA is still listed
@@ -274,7 +294,7 @@ SCRIPTED = ['handshake', 'new_child', 'new_child_from_responder', 'rekey_child',
 # scripted histories that need something special (forced SPI collisions, a postponed IKE_SA rekey): used by the
 # handler correspondence and by individual oracles, not by the generic plans
 SPECIAL = ['spi_collision_out', 'spi_collision_in', 'spi_collision_rekey', 'postponed_rekey_then_child', 'ike_spi_reuse',
-           'crossing_children', 'cookie_handshake']
+           'crossing_children', 'cookie_handshake', 'spi_reuse_after_crossing_delete']
 
 
 def random_walk(rng, n, handshake=True, weights=None):
